@@ -286,6 +286,18 @@ func (cfg *LifeCfg) GenComplete(t *rapid.T, s *Sim) *Action {
 	if !ok {
 		return nil
 	}
+	// a shard may be listed by several orders (renewals share the list): the provider may name any of them
+	var listing []uint64
+	for _, ord := range sortedOrders(s.Last) {
+		for _, id := range ord.Shards {
+			if id == sh.Id {
+				listing = append(listing, ord.Id)
+			}
+		}
+	}
+	if len(listing) > 1 {
+		o = listing[rapid.IntRange(0, len(listing)-1).Draw(t, "viaOrder")]
+	}
 	sp := s.acctOf(sh.Sp)
 	a := NewAction("complete", sp)
 	a.Order = o
@@ -763,4 +775,70 @@ func (cfg *LifeCfg) GenStoreStale(t *rapid.T, s *Sim) *Action {
 	a.Duration = cfg.genDur(t)
 	a.Timeout = int32(rapid.IntRange(cfg.TimeoutLo, cfg.TimeoutHi).Draw(t, "timeout"))
 	return a
+}
+
+// GenMigrationAcrossRotation: a migration is started, the model is renewed while it is pending, the
+// chain runs across the end of the current paid period (rotation into the renewal) and only then the
+// new provider completes - through any of the orders that list the pending shard.
+func (cfg *LifeCfg) GenMigrationAcrossRotation(t *rapid.T, s *Sim) *Action {
+	var cands []ordertypes.Shard
+	for _, sh := range sortedShards(s.Last) {
+		if sh.Status == ordertypes.ShardCompleted && len(sh.RenewInfos) == 0 {
+			if o, ok := s.Last.Orders[sh.OrderId]; ok {
+				if m, ok := s.Last.Metas[o.DataId]; ok && m.Status == modeltypes.MetaComplete && m.OrderId == o.Id {
+					cands = append(cands, sh)
+				}
+			}
+		}
+	}
+	if len(cands) == 0 {
+		return nil
+	}
+	sh := cands[rapid.IntRange(0, len(cands)-1).Draw(t, "shard")]
+	o := s.Last.Orders[sh.OrderId]
+	m := s.Last.Metas[o.DataId]
+	mig := NewAction("migrate", s.acctOf(sh.Sp))
+	mig.Data = []string{o.DataId}
+	rn := NewAction("renew", rapid.SampledFrom(cfg.Providers).Draw(t, "gateway"))
+	rn.Owner = s.didIdx(m.Owner)
+	if rn.Owner < 0 {
+		return nil
+	}
+	rn.Data, rn.Duration, rn.Timeout = []string{o.DataId}, cfg.genDur(t), 10
+	if rapid.Bool().Draw(t, "renewFirst") {
+		s.Do(rn)
+		s.Do(mig)
+	} else {
+		s.Do(mig)
+		s.Do(rn)
+	}
+	end := int64(sh.CreatedAt + sh.Duration)
+	if end >= s.C.Height {
+		adv := NewAction("advance", 0)
+		adv.Blocks = end - s.C.Height + int64(rapid.IntRange(0, 2).Draw(t, "past"))
+		if adv.Blocks > 0 {
+			s.Do(adv)
+		}
+	}
+	// the pending shard
+	for _, x := range sortedShards(s.Last) {
+		if x.Status == ordertypes.ShardMigrating && x.From == sh.Sp {
+			var listing []uint64
+			for _, ord := range sortedOrders(s.Last) {
+				for _, id := range ord.Shards {
+					if id == x.Id {
+						listing = append(listing, ord.Id)
+					}
+				}
+			}
+			if len(listing) == 0 {
+				return nil
+			}
+			c := NewAction("complete", s.acctOf(x.Sp))
+			c.Order = listing[rapid.IntRange(0, len(listing)-1).Draw(t, "viaOrder")]
+			c.Cid, c.Size = x.Cid, x.Size_
+			return c
+		}
+	}
+	return nil
 }
